@@ -7,7 +7,7 @@ from .. import corr
 from ..num import wire, unwire, canon, exact, INF
 from ..pools import RecPool
 
-STREAMS = ["ops-exact", "grid-single-write"]
+STREAMS = ["ops-exact", "grid-single-write", "infinite-supply"]
 RULE = ("parameters from a lattice that puts two or three limits in play (fractional, integral, "
         "infinite; window inside/overlapping/outside [min,max]); op programs of writes, reads, "
         "increments, supply changes and outside demand changes over int / Fraction / dyadic-float "
@@ -325,7 +325,51 @@ def grid_cases():
     return out
 
 
+def gen_inf_case(rng):
+    c = gen_case(rng, 1)
+    v = rng.choice([F(rng.randint(-40, 80), rng.choice([1, 1, 2, 4])), rng.randint(-40, 80)])
+    return {"mode": "inf", "p": c["p"], "pool": c["pool"], "esupply": rng.choice(["inf", "inf", "-inf"]), "v": wire(v),
+            "vint": isinstance(v, int)}
+
+
+def impl_inf(case):
+    from cobald.decorator.standardiser import Standardiser
+    pl = case["pool"]
+    pool = RecPool(INF if case["esupply"] == "inf" else -INF, num(pl["demand"]), num(pl["util"]), num(pl["alloc"]))
+    p = case["p"]
+    try:
+        st = Standardiser(pool, minimum=num(p["min"]), maximum=num(p["max"]), granularity=num(p["g"]),
+                          backlog=num(p["backlog"]), surplus=num(p["surplus"]))
+    except ValueError:
+        return {"ctor": "ValueError"}
+    v = unwire(case["v"])
+    st.demand = int(v) if case["vint"] else v
+    return {"ctor": "ok", "fwd": canon(pool.demand), "read": canon(st.demand)}
+
+
+def oracle_inf(case, o):
+    """[minimum, maximum] holds whatever the supply; nothing may turn into NaN"""
+    if o.get("ctor") != "ok":
+        return []
+    out = []
+    p = case["p"]
+    for name in ("fwd", "read"):
+        if o[name] in (None, "nan") or str(o[name]).startswith("?"):
+            out.append(("infinite-supply-nan", "%s is %r at supply %s" % (name, o[name], case["esupply"])))
+            return out
+        x = unwire(o[name])
+        if not (unwire(p["min"][1]) <= x <= unwire(p["max"][1])):
+            out.append(("infinite-supply-minmax", "%s = %s outside [%s, %s] at supply %s" % (name, o[name], p["min"][1], p["max"][1], case["esupply"])))
+    return out
+
+
 def run(ctx):
+    rng = ctx.rng("inf")
+    icases = [gen_inf_case(rng) for _ in range(ctx.n(800, 8000))]
+    corr.run_stream(ctx, "infinite-supply", icases, impl_inf,
+                    lambda c, o: {"p": {k: v[1] for k, v in c["p"].items()}, "pool": {k: v[1] for k, v in c["pool"].items()},
+                                  "esupply": c["esupply"], "v": c["v"]},
+                    oracle_inf, lambda c, o: o.get("ctor") == "ok", None, None)
     rng = ctx.rng("ops")
     n = ctx.n(2500, 40000)
     cases = [gen_case(rng, rng.randint(1, 30)) for _ in range(n)]
